@@ -74,6 +74,12 @@ func CheckSourceMap(a *ptree.Accepted) ([]ptree.Alarm, Stats) {
 	eol := map[int]bool{}    // R6 positions
 	for _, x := range items.Exprs {
 		if strings.TrimSpace(x.E.Value) == "" {
+			// A blank expression (e.g. attr={}) has no bytes to demand, but the
+			// generator may register its blanks and its end position: those
+			// entries are legitimate, not stray.
+			for j := 0; j <= len(x.E.Value); j++ {
+				eol[int(x.E.Range.From.Index)+j] = true
+			}
 			continue
 		}
 		exprs = append(exprs, x)
